@@ -9,6 +9,8 @@ Import ListNotations.
 
 Definition q_secure (q : qmode) : bool := match q with QInsecure => false | _ => true end.
 Definition fetch_secure (f : fetch) : bool := q_secure (f_q f).
+(* the query only ever yields rows of the caller's own project (all rows for an admin) *)
+Definition q_own (q : qmode) : bool := match q with QOwn | QOwnAdmin => true | _ => false end.
 
 (* every query of the function carries the tenancy filter *)
 Definition shape_secure (s : shape) : bool :=
@@ -27,12 +29,25 @@ Definition is_write (s : shape) : bool :=
   | _ => false
   end.
 
-(* every mutation of an existing row is preceded by check_db_obj_access *)
+(* every mutation of an existing row is preceded by check_db_obj_access, or works on a
+   query restricted to the caller's own rows *)
 Definition shape_guarded (s : shape) : bool :=
   match s with
-  | SUpdate _ chk _ | SDeleteObj _ chk _ | SCreateOrUpdate _ _ chk _ => chk
-  | SDeleteQuery _ | SDeleteAll _ => false
+  | SUpdate f chk _ | SDeleteObj f chk _ => chk || q_own (f_q f)
+  | SCreateOrUpdate _ u chk _ => chk || q_own (f_q u)
+  | SDeleteQuery f => q_own (f_q f)
+  | SDeleteAll q => q_own q
   | _ => true
+  end.
+
+(* a writing shape with neither guard: its fetch reaches rows of other projects and nothing checks the owner *)
+Definition shape_exposed (s : shape) : bool :=
+  match s with
+  | SUpdate f chk _ | SDeleteObj f chk _ => negb chk && negb (q_own (f_q f))
+  | SCreateOrUpdate p u chk _ => negb chk && negb (q_own (f_q u)) && negb (q_own (f_q p))
+  | SDeleteQuery f => negb (q_own (f_q f))
+  | SDeleteAll q => negb (q_own q)
+  | _ => false
   end.
 
 (* the model class has the _set_project_id hook *)
@@ -129,10 +144,18 @@ Qed.
 
 Lemma q_visible_nonadmin : forall q d c a x,
   q_secure q = true -> c_admin c = false -> a_insecure a = false ->
-  q_visible q d c a x = visible d c x.
+  q_visible q d c a x = true -> visible d c x = true.
 Proof.
   intros q d c a x Hq Hc Ha. destruct q; cbn [q_visible]; try discriminate;
-    rewrite ?Hc, ?Ha; reflexivity.
+    rewrite ?Hc, ?Ha; cbn [orb]; try (intro H; exact H);
+    intro H; unfold visible; rewrite H; reflexivity.
+Qed.
+
+Lemma q_own_nonadmin : forall q d c a x,
+  q_own q = true -> c_admin c = false -> q_visible q d c a x = true -> r_owner x = c_project c.
+Proof.
+  intros q d c a x Hq Hc. destruct q; cbn [q_own q_visible] in *; try discriminate;
+    rewrite ?Hc; cbn [orb]; intro H; apply Nat.eqb_eq; exact H.
 Qed.
 
 Lemma candidates_visible : forall f d c a x,
@@ -140,7 +163,7 @@ Lemma candidates_visible : forall f d c a x,
   In x (candidates f d c a) -> In x (rows d) /\ visible d c x = true.
 Proof.
   intros f d c a x Hf Hc Ha H. apply candidates_sound in H. destruct H as [H1 H2].
-  split; [exact H1|]. rewrite <- (q_visible_nonadmin (f_q f) d c a x Hf Hc Ha). exact H2.
+  split; [exact H1|]. exact (q_visible_nonadmin (f_q f) d c a x Hf Hc Ha H2).
 Qed.
 
 (* ---- visibility only shrinks when member rows disappear ------------------------- *)
@@ -405,18 +428,43 @@ Proof.
   destruct (r_owner r0 =? c_project c) eqn:E; [apply Nat.eqb_eq; exact E|cbn [negb] in H; discriminate].
 Qed.
 
-Lemma guarded_update : forall f forced d c a r,
-  c_admin c = false -> r_owner r <> c_project c -> wf_db d -> In r (rows d) ->
-  In r (rows (snd (do_update f true forced d c a))) /\ wf_db (snd (do_update f true forced d c a)).
+Lemma guarded_fetch_owner : forall f chk d c a r0,
+  chk || q_own (f_q f) = true -> c_admin c = false ->
+  q_visible (f_q f) d c a r0 = true ->
+  (if chk then access_check c r0 else AOk) = AOk -> r_owner r0 = c_project c.
 Proof.
-  intros f forced d c a r Hc Hown Hwf Hr. unfold do_update.
+  intros f chk d c a r0 Hg Hc Hq Ha. destruct chk.
+  - apply access_ok_owner; assumption.
+  - cbn [orb] in Hg. eapply q_own_nonadmin; eauto.
+Qed.
+
+Lemma guarded_update : forall f chk forced d c a r,
+  chk || q_own (f_q f) = true ->
+  c_admin c = false -> r_owner r <> c_project c -> wf_db d -> In r (rows d) ->
+  In r (rows (snd (do_update f chk forced d c a))) /\ wf_db (snd (do_update f chk forced d c a)).
+Proof.
+  intros f chk forced d c a r Hg Hc Hown Hwf Hr. unfold do_update.
   destruct (first_of (candidates f d c a) a) as [r0|] eqn:E; [|split; assumption].
-  apply first_of_in in E. apply candidates_sound in E. destruct E as [Hr0 _].
-  destruct (access_check c r0) eqn:Ha; try (split; assumption).
-  apply access_ok_owner in Ha; [|exact Hc]. cbn [snd rows]. split.
+  apply first_of_in in E. apply candidates_sound in E. destruct E as [Hr0 Hq0].
+  destruct (if chk then access_check c r0 else AOk) eqn:Ha; try (split; assumption).
+  pose proof (guarded_fetch_owner f chk d c a r0 Hg Hc Hq0 Ha) as Ho. cbn [snd rows]. split.
   - apply in_replace_other; [exact Hr|]. cbn [apply_sets r_id]. intro Heq.
     assert (r = r0) by (eapply nodup_id_inj; eauto). subst. contradiction.
   - unfold wf_db. cbn [rows]. rewrite map_id_replace. exact Hwf.
+Qed.
+
+Lemma delete_own_hits_keep : forall (hit : list res) d c r ms,
+  wf_db d -> In r (rows d) -> r_owner r <> c_project c ->
+  (forall x, In x hit -> In x (rows d) /\ r_owner x = c_project c) ->
+  In r (rows (mkDb (filter (fun y => negb (existsb (fun h => r_id h =? r_id y) hit)) (rows d)) ms)) /\
+  wf_db (mkDb (filter (fun y => negb (existsb (fun h => r_id h =? r_id y) hit)) (rows d)) ms).
+Proof.
+  intros hit d c r ms Hwf Hr Hown Hhit. cbn [rows]. split.
+  - apply filter_In. split; [exact Hr|]. apply negb_true_iff.
+    destruct (existsb (fun h => r_id h =? r_id r) hit) eqn:E; [|reflexivity].
+    apply existsb_exists in E. destruct E as [h [Hh He]]. apply Nat.eqb_eq in He.
+    destruct (Hhit h Hh) as [H1 H2]. assert (h = r) by (eapply nodup_id_inj; eauto). subst. contradiction.
+  - unfold wf_db. cbn [rows]. apply nodup_map_filter. exact Hwf.
 Qed.
 
 Lemma exec_guarded_step : forall s d c a r,
@@ -428,15 +476,22 @@ Proof.
   destruct s as [f|f|q|q|forced|f chk forced|f chk cas|f|q|p u chk forced|]; cbn [exec_op shape_guarded] in *;
     try discriminate; try (split; assumption).
   - destruct (create_inv forced d c a r Hwf Hr) as [_ [H1 [H2 _]]]. split; assumption.
-  - subst chk. apply guarded_update; assumption.
-  - subst chk. destruct (first_of (candidates f d c a) a) as [r0|] eqn:E; [|split; assumption].
-    apply first_of_in in E. apply candidates_sound in E. destruct E as [Hr0 _].
-    destruct (access_check c r0) eqn:Ha; try (split; assumption).
-    apply access_ok_owner in Ha; [|exact Hc]. cbn [snd rows]. split.
+  - apply guarded_update; assumption.
+  - destruct (first_of (candidates f d c a) a) as [r0|] eqn:E; [|split; assumption].
+    apply first_of_in in E. apply candidates_sound in E. destruct E as [Hr0 Hq0].
+    destruct (if chk then access_check c r0 else AOk) eqn:Ha; try (split; assumption).
+    pose proof (guarded_fetch_owner f chk d c a r0 Hs Hc Hq0 Ha) as Ho. cbn [snd rows]. split.
     + unfold remove_row. apply filter_In. split; [exact Hr|]. apply negb_true_iff. apply Nat.eqb_neq. intro Heq.
       assert (r = r0) by (eapply nodup_id_inj; eauto). subst. contradiction.
     + unfold wf_db, remove_row. cbn [rows]. apply nodup_map_filter. exact Hwf.
-  - subst chk. destruct (candidates p d c a).
+  - destruct (candidates f d c a) as [|h t] eqn:E; [split; assumption|]. cbn [snd].
+    apply (delete_own_hits_keep (h :: t) d c r (mems d)); try assumption.
+    intros x Hx. rewrite <- E in Hx. apply candidates_sound in Hx. destruct Hx as [H1 H2].
+    split; [exact H1|eapply q_own_nonadmin; eauto].
+  - cbn [snd]. apply (delete_own_hits_keep _ d c r (mems d)); try assumption.
+    intros x Hx. apply filter_In in Hx. destruct Hx as [Hx _]. apply candidates_sound in Hx.
+    destruct Hx as [H1 H2]. split; [exact H1|]. cbn [f_q] in H2. eapply q_own_nonadmin; eauto.
+  - destruct (candidates p d c a).
     + destruct (create_inv forced d c a r Hwf Hr) as [_ [H1 [H2 _]]]. split; assumption.
     + apply guarded_update; assumption.
 Qed.
@@ -466,22 +521,34 @@ Definition wit_c : ctx := mkCtx 2 false.
 Definition wit_a (m : model) : args :=
   mkArgs m 7 (Some 0) false 0 None None 8 8 0 Private 0 (Some 99) None None.
 
-Lemma wit_candidates : forall f m, candidates f (wit_d m) wit_c (wit_a m) = [wit_r m].
-Proof. intros [q s] m. destruct q, s, m; reflexivity. Qed.
+Lemma wit_candidates : forall f m, q_own (f_q f) = false -> candidates f (wit_d m) wit_c (wit_a m) = [wit_r m].
+Proof. intros [q s] m H. destruct q; try discriminate H; destruct s, m; reflexivity. Qed.
 
 Lemma unguarded_violates : forall s m,
-  is_write s = true -> shape_guarded s = false ->
+  shape_exposed s = true ->
   find_row 7 (snd (exec_op s (wit_d m) wit_c (wit_a m))) <> Some (wit_r m).
 Proof.
-  intros s m Hw Hg.
-  destruct s as [f|f|q|q|forced|f chk forced|f chk cas|f|q|p u chk forced|]; cbn [is_write shape_guarded] in *;
+  intros s m Hg.
+  destruct s as [f|f|q|q|forced|f chk forced|f chk cas|f|q|p u chk forced|]; cbn [shape_exposed] in *;
     try discriminate; cbn [exec_op].
-  - subst chk. unfold do_update. rewrite wit_candidates. destruct m, forced; vm_compute; discriminate.
-  - subst chk. rewrite wit_candidates. destruct m, cas; vm_compute; discriminate.
-  - rewrite wit_candidates. destruct m; vm_compute; discriminate.
-  - rewrite wit_candidates. destruct m; vm_compute; discriminate.
-  - subst chk. rewrite wit_candidates. unfold do_update. rewrite wit_candidates.
+  - apply andb_true_iff in Hg. destruct Hg as [Hchk Hq]. apply negb_true_iff in Hchk, Hq. subst chk.
+    unfold do_update. rewrite (wit_candidates f m Hq). destruct m, forced; vm_compute; discriminate.
+  - apply andb_true_iff in Hg. destruct Hg as [Hchk Hq]. apply negb_true_iff in Hchk, Hq. subst chk.
+    rewrite (wit_candidates f m Hq). destruct m, cas; vm_compute; discriminate.
+  - apply negb_true_iff in Hg. rewrite (wit_candidates f m Hg). destruct m; vm_compute; discriminate.
+  - apply negb_true_iff in Hg. rewrite (wit_candidates (mkFetch q SelAll) m Hg). destruct m; vm_compute; discriminate.
+  - apply andb_true_iff in Hg. destruct Hg as [Hg Hp]. apply andb_true_iff in Hg. destruct Hg as [Hchk Hq].
+    apply negb_true_iff in Hchk, Hq, Hp. subst chk.
+    rewrite (wit_candidates p m Hp). unfold do_update. rewrite (wit_candidates u m Hq).
     destruct m, forced; vm_compute; discriminate.
+Qed.
+
+Lemma exposed_not_guarded : forall s, shape_exposed s = true -> is_write s = true /\ shape_guarded s = false.
+Proof.
+  intros s H. destruct s as [f|f|q|q|forced|f chk forced|f chk cas|f|q|p u chk forced|]; cbn in *; try discriminate;
+    repeat (apply andb_true_iff in H; destruct H as [H ?]);
+    repeat match goal with X : negb _ = true |- _ => apply negb_true_iff in X end;
+    split; try reflexivity; try (apply orb_false_iff; split; assumption); assumption.
 Qed.
 
 Lemma wit_facts : forall m,
